@@ -170,6 +170,15 @@ func init() {
 	harnessPrims["vIf"] = func(r *Run, _ *frame, _ *ssa.Function, args []Value) Value {
 		return r.B.Ite(r.asInt(args[0]), r.asInt(args[1]), r.asInt(args[2]))
 	}
+	harnessPrims["vClockCount"] = func(r *Run, _ *frame, _ *ssa.Function, args []Value) Value {
+		return smt.Const(64, uint64(len(r.clockLog)))
+	}
+	harnessPrims["vClockSec"] = func(r *Run, _ *frame, _ *ssa.Function, args []Value) Value {
+		return r.B.Sub(r.clockLog[cint(args[0])][0], smt.Const(64, 63_900_000_000))
+	}
+	harnessPrims["vClockNsec"] = func(r *Run, _ *frame, _ *ssa.Function, args []Value) Value {
+		return r.B.ZExt(r.clockLog[cint(args[0])][1], 64)
+	}
 	harnessPrims["vSymbolic"] = func(r *Run, _ *frame, _ *ssa.Function, args []Value) Value {
 		return smt.True
 	}
